@@ -15,11 +15,19 @@ func encMatches(kind int, out string, want []*rec) bool {
 	return out == exp
 }
 
-// encMatchesAnyOrder: as encMatches, the records may come in any order (massive mode).
+// encMatchesAnyOrder: as encMatches, the records may come in any order (massive mode). The massive-mode yaml
+// spreader uses one encoder, so every document but the first written is preceded by the separator.
 func encMatchesAnyOrder(kind int, out string, want []*rec) bool {
 	var blocks []string
 	for _, r := range want {
-		blocks = append(blocks, recText(r)+"\n")
+		b := recText(r) + "\n"
+		if kind == encYAML {
+			b = "---\n" + b
+		}
+		blocks = append(blocks, b)
+	}
+	if kind == encYAML && len(want) > 0 {
+		out = "---\n" + out
 	}
 	return c10Perm(out, blocks)
 }
